@@ -95,25 +95,29 @@ HARNESS(h_bkrep_depth)      /* a fifth nested bkrep is refused (deliberate asser
     CHECK(0, "BlockRepeat at depth 4 must not return");
     OUT(st);
 }
-HARNESS(h_bkrep_step)       /* one cycle inside a block: not at the end => frames untouched; at the end with count > 0 => count-1, jump to start; count == 0 => frame popped, fall through */
+HARNESS(h_bkrep_step)       /* one cycle inside a block, with or without a single-instruction repeat active on the fetched instruction */
 {
     FETCH_RIG();
-    NATIVE_ONLY(st.rep = 0; if (!st.lp) { st.lp = 1; st.bcn = 1; } old = st;)
-    ASSUME(!st.rep && st.lp && st.bcn >= 1);
+    NATIVE_ONLY(if (!st.lp) { st.lp = 1; st.bcn = 1; } old = st;)
+    ASSUME(st.lp && st.bcn >= 1 && !(st.rep && two));    /* a repeated instruction is one word (the statement's scope) */
     unsigned top = st.bcn - 1;
     u32 after = old.pc + 1 + two;                          /* pc after the fetch: one or two words */
-    bool at_end = old.bkrep_stack.e[top].end + 1 == after;
+    /* the repeat bookkeeping comes first: while the repeat goes on, pc is put back onto the repeated instruction */
+    bool rep_on = old.rep && old.repc != 0;
+    u32 cur = rep_on ? after - 1 : after;
+    bool at_end = old.bkrep_stack.e[top].end + 1 == cur;  /* so a block's last instruction that is being repeated ends the pass only on its final repetition */
     Interpreter_Run(&it, 1);
-    CBMC_ONLY(CHECK(c09_rec.calls == 1 && c09_rec.opcode == w0, "every instruction of the block executes exactly once per pass");)
-    if (!at_end) CHECK(same_loop_frames(&st, &old) && st.pc == after, "inside the block: loop state untouched, pc advances by the instruction length");
+    CBMC_ONLY(CHECK(c09_rec.calls == 1 && c09_rec.opcode == w0, "every instruction of the block executes exactly once per cycle");)
+    CHECK(st.rep == rep_on && st.repc == (rep_on ? (u16)(old.repc - 1) : old.repc), "the repeat counter counts down while the repeat is active and the flag clears after the last repetition");
+    if (!at_end) CHECK(same_loop_frames(&st, &old) && st.pc == cur, "inside the block: loop state untouched, pc advances by the instruction length (or stays on a repeated instruction)");
     else if (old.bkrep_stack.e[top].lc != 0) {
         RegisterState exp = old; exp.bkrep_stack.e[top].lc = old.bkrep_stack.e[top].lc - 1;
         CHECK(same_loop_frames(&st, &exp) && st.pc == old.bkrep_stack.e[top].start, "last instruction of the block with count > 0: the visible counter counts down once and the block restarts");
     } else {
         RegisterState exp = old; exp.bcn = old.bcn - 1; exp.lp = exp.bcn != 0;
-        CHECK(same_loop_frames(&st, &exp) && st.pc == after, "last instruction with count 0: the frame is popped, the in-loop flag clears with the outermost frame, execution falls through");
+        CHECK(same_loop_frames(&st, &exp) && st.pc == cur, "last instruction with count 0: the frame is popped, the in-loop flag clears with the outermost frame, execution falls through");
     }
-    RegisterState exp2 = st; exp2.pc = old.pc; exp2.bcn = old.bcn; exp2.lp = old.lp; exp2.bkrep_stack = old.bkrep_stack;
+    RegisterState exp2 = st; exp2.pc = old.pc; exp2.bcn = old.bcn; exp2.lp = old.lp; exp2.bkrep_stack = old.bkrep_stack; exp2.rep = old.rep; exp2.repc = old.repc;
     CHECK(eqv_regs(exp2, old), "the loop machinery itself changes nothing else");
     u16 lc_view = Interpreter_RegToBus16(&it, RegName_lc, 0);
     CHECK(!st.lp || lc_view == st.bkrep_stack.e[st.bcn - 1].lc, "the program-visible loop counter is the innermost frame's count");
